@@ -48,33 +48,88 @@ def stride_lane(ws, r):
 # ---------------------------------------------------------------------------------------------------------
 # instance constructors (each returns a fresh instance; called inside worker processes)
 
-def mk_up(r, nb, rev, raw=True, tokens=None):
-    """_UpConverter (raw=True: valid_token_count visible) or Converter without the count."""
-    m = stream._UpConverter(nb, nb * r, r, rev) if raw else stream.Converter(nb, nb * r, reverse=rev)
-    name = "%s(%d->%d%s)" % ("_UpConverter" if raw else "Converter", nb, nb * r, ",reverse" if rev else "")
+def ident(name, module, lean_open, capacity, nb, tokens=None, level=None):
+    """Element whose documented function is the identity (pipes, buffers, FIFOs, delay): scoreboard + no-loss
+    watchdog (+ exported `level` for SyncFIFO depth >= 2); data range from the declared payload+param width."""
+    from streamlib import IdentityScoreboard
+    inst = StreamInst(name, module, lean_open, capacity=capacity, tokens=tokens)
+
+    def spec():
+        sb = IdentityScoreboard(capacity)
+        if level is not None:
+            sb = L.FifoLevel(sb, inst)
+        return L.NoLoss(sb, lambda m: len(m.q) > 0, capacity + 6)
+    inst.spec = spec
+    if level is not None:
+        L.watch_level(inst, level)
+    return DW(inst, nb)
+
+
+def fifo(depth, buffered, layout, nb, name, tokens=None):
+    m = stream.SyncFIFO(layout, depth, buffered=buffered)
+    lean = ("wire" if depth == 0 else "pipevalid" if depth == 1 else
+            ("syncfifo_buffered %d" if buffered else "syncfifo %d") % depth)
+    cap = depth + 1 if (buffered and depth >= 2) else depth
+    return ident(name, m, lean, cap, nb, tokens=tokens, level=m.level if depth >= 2 else None)
+
+
+def wide_tokens(nbits, k=10):
+    """A fixed, reproducible sample of data values for mode A alphabets whose data is too wide to enumerate."""
+    import random
+    r = random.Random(nbits * 7919 + 1)
+    vals = sorted({0, (1 << nbits) - 1} | {r.getrandbits(nbits) for _ in range(k)})
+    return [(d, f, l) for d in vals for f in (0, 1) for l in (0, 1)]
+
+
+def mk_up(r, nb, rev, raw=True, tokens=None, conv_vtc=False):
+    """_UpConverter (raw=True: valid_token_count visible), Converter without the count, or (conv_vtc) the class
+    selected by Converter(report_valid_token_count=True)."""
+    if conv_vtc:
+        raw = True
+        m = stream.Converter(nb, nb * r, reverse=rev, report_valid_token_count=True)
+        assert m.ratio == r
+    else:
+        m = stream._UpConverter(nb, nb * r, r, rev) if raw else stream.Converter(nb, nb * r, reverse=rev)
+    name = "%s(%d->%d%s%s)" % ("_UpConverter" if raw and not conv_vtc else "Converter", nb, nb * r,
+                               ",reverse" if rev else "", ",vtc" if conv_vtc else "")
     return DW(RG(StreamInst(name, m, "up %d %d 0 %d %d" % (r, nb, b(rev), b(raw)), tokens=tokens or toks(nb),
-                            spec=lambda: L.UpScoreboard(r, nb, 0, rev, vtc=raw))), nb)
+                            spec=lambda: L.NoLoss(L.UpScoreboard(r, nb, 0, rev, vtc=raw), lambda m: len(m.words) > 0, 4))), nb)
 
 
-def mk_down(r, nb, rev, raw=True, tokens=None):
-    m = stream._DownConverter(nb * r, nb, r, rev) if raw else stream.Converter(nb * r, nb, reverse=rev)
-    name = "%s(%d->%d%s)" % ("_DownConverter" if raw else "Converter", nb * r, nb, ",reverse" if rev else "")
+def mk_down(r, nb, rev, raw=True, tokens=None, conv_vtc=False):
+    if conv_vtc:
+        raw = True
+        m = stream.Converter(nb * r, nb, reverse=rev, report_valid_token_count=True)
+        assert m.ratio == r
+    else:
+        m = stream._DownConverter(nb * r, nb, r, rev) if raw else stream.Converter(nb * r, nb, reverse=rev)
+    name = "%s(%d->%d%s%s)" % ("_DownConverter" if raw and not conv_vtc else "Converter", nb * r, nb,
+                               ",reverse" if rev else "", ",vtc" if conv_vtc else "")
     return DW(RG(StreamInst(name, m, "down %d %d 0 %d %d" % (r, nb, b(rev), b(raw)), tokens=tokens or toks(nb * r),
                             spec=lambda: L.DownScoreboard(r, nb, 0, rev, vtc=raw))), nb * r)
 
 
-def mk_pack(n, nb, pw, rev, tokens=None):
-    d = ED([("data", nb)], [("p", pw)] if pw else [])
+def _payload(nb, fields):
+    if fields:
+        assert sum(fields) == nb
+        return [("f%d" % k, w) for k, w in enumerate(fields)]
+    return [("data", nb)]
+
+
+def mk_pack(n, nb, pw, rev, tokens=None, fields=None):
+    d = ED(_payload(nb, fields), [("p", pw)] if pw else [])
     m = stream.Pack(d, n, reverse=rev)
-    name = "Pack(%db%s,n=%d%s)" % (nb, "+p%d" % pw if pw else "", n, ",reverse" if rev else "")
+    name = "Pack(%s%s,n=%d%s)" % ("%db" % nb if not fields else list(fields), "+p%d" % pw if pw else "", n,
+                                  ",reverse" if rev else "")
     return DW(RG(StreamInst(name, m, "up %d %d %d %d 0" % (n, nb, pw, b(rev)), tokens=tokens or toks(nb + pw),
-                            spec=lambda: L.UpScoreboard(n, nb, pw, rev))), nb + pw)
+                            spec=lambda: L.NoLoss(L.UpScoreboard(n, nb, pw, rev), lambda m: len(m.words) > 0, 4))), nb + pw)
 
 
-def mk_unpack(n, nb, pw, rev, tokens=None):
-    d = ED([("data", nb)], [("p", pw)] if pw else [])
+def mk_unpack(n, nb, pw, rev, tokens=None, fields=None):
+    d = ED(_payload(nb, fields), [("p", pw)] if pw else [])
     m = stream.Unpack(n, d, reverse=rev)
-    name = "Unpack(n=%d,%db%s%s)" % (n, nb, "+p%d" % pw if pw else "", ",reverse" if rev else "")
+    name = "Unpack(n=%d,%s%s%s)" % (n, "%db" % nb if not fields else list(fields), "+p%d" % pw if pw else "",
+                                    ",reverse" if rev else "")
     return DW(RG(StreamInst(name, m, "down %d %d %d %d 0" % (n, nb, pw, b(rev)), tokens=tokens or toks(n * nb + pw),
                             spec=lambda: L.DownScoreboard(n, nb, pw, rev))), n * nb + pw)
 
@@ -89,7 +144,8 @@ def mk_stride(up, r, ws, pw, rev, tokens=None):
         return DW(RG(StreamInst("StrideConverter(up x%d,%s+p%d%s)" % (r, ws, pw, ",reverse" if rev else ""), m,
                                 "strideup %d %d %d %s" % (r, pw, b(rev), wtxt),
                                 tokens=tokens or toks(nb + pw),
-                                spec=lambda: L.UpScoreboard(r, nb, pw, rev, lane_of=stride_lane(ws, r)))), nb + pw)
+                                spec=lambda: L.NoLoss(L.UpScoreboard(r, nb, pw, rev, lane_of=stride_lane(ws, r)),
+                                                       lambda m: len(m.words) > 0, 4))), nb + pw)
     m = stream.StrideConverter(wide, narrow, reverse=rev)
     return DW(RG(StreamInst("StrideConverter(down /%d,%s+p%d%s)" % (r, ws, pw, ",reverse" if rev else ""), m,
                             "stridedown %d %d %d %s" % (r, pw, b(rev), wtxt), tokens=tokens or toks(nb * r + pw),
@@ -108,7 +164,7 @@ def mk_gearbox(i, o, msb, tokens=None):
     m = stream.Gearbox(i, o, msb_first=msb)
     return DW(RG(StreamInst("Gearbox(%d,%d,%s)" % (i, o, "msb" if msb else "lsb"), m,
                             "gearbox %d %d %d" % (i, o, b(msb)), tokens=tokens or toks(i, flags=False),
-                            spec=lambda: L.GearboxScoreboard(i, o, msb))), i)
+                            spec=lambda: L.NoLoss(L.GearboxScoreboard(i, o, msb), lambda m: len(m.bits) >= o, 4))), i)
 
 
 def mk_gate(nb, srd, tokens=None):
@@ -120,25 +176,61 @@ def mk_gate(nb, srd, tokens=None):
 
 def mk_delay(nb, n, tokens=None):
     m = stream.Delay([("data", nb)], n)
-    return DW(StreamInst("Delay(%db,%d)" % (nb, n), m, "delay %d" % n, tokens=tokens, capacity=n), nb)
+    return ident("Delay(%db,%d)" % (nb, n), m, "delay %d" % n, n, nb, tokens=tokens)
 
 
-def mk_cast(ws_from, ws_to, rf, rt):
-    m = stream.Cast([("a%d" % k, w) for k, w in enumerate(ws_from)], [("x%d" % k, w) for k, w in enumerate(ws_to)],
+def mk_cast(ws_from, ws_to, rf, rt, int_from=False, int_to=False):
+    """int_from/int_to: pass the layout as a plain bit count (Cast's `_rawbits_layout` path)."""
+    assert not int_from or len(ws_from) == 1
+    assert not int_to or len(ws_to) == 1
+    m = stream.Cast(ws_from[0] if int_from else [("a%d" % k, w) for k, w in enumerate(ws_from)],
+                    ws_to[0] if int_to else [("x%d" % k, w) for k, w in enumerate(ws_to)],
                     reverse_from=rf, reverse_to=rt)
     n = sum(ws_from)
-    return DW(RG(StreamInst("Cast(%s->%s,%d,%d)" % (ws_from, ws_to, b(rf), b(rt)), m,
+    return DW(RG(StreamInst("Cast(%s->%s,%d,%d)" % (ws_from[0] if int_from else ws_from, ws_to[0] if int_to else ws_to,
+                                                     b(rf), b(rt)), m,
                             "cast %d %d %d %s" % (b(rf), b(rt), len(ws_from), " ".join(map(str, ws_from + ws_to))),
                             tokens=toks(n),
                             spec=lambda: L.MapScoreboard(L.cast_fn(ws_from, ws_to, rf, rt)))), n)
 
 
-def mk_shifter(dw, tokens=None):
-    m = stream.Shifter(dw)
+def mk_shifter(dw, tokens=None, ext=False):
+    from migen import Signal
+    m = stream.Shifter(dw, shift=Signal(max=dw)) if ext else stream.Shifter(dw)
     nsh = 1 << max(1, (dw - 1).bit_length())     # from the constructor argument (shift = Signal(max=dw))
-    return DW(RG(StreamInst("Shifter(%d)" % dw, m, "shifter %d" % dw, tokens=tokens or toks(dw),
+    return DW(RG(StreamInst("Shifter(%d%s)" % (dw, ",ext" if ext else ""), m, "shifter %d" % dw, tokens=tokens or toks(dw),
                             extra_inputs=[m.shift], extra_alphabet=[(s,) for s in range(nsh)],
-                            spec=lambda: L.ShifterScoreboard(dw))), dw, [nsh])
+                            spec=lambda: L.NoLoss(L.ShifterScoreboard(dw), lambda m: len(m.q) > 0, 6))), dw, [nsh])
+
+
+def mk_route(kind, n, nb, via="direct", _cls=None):
+    """Multiplexer/Demultiplexer built directly, with_csr (selector = CSR storage register) or as the members of a
+    Crossbar (which forwards layout, n and with_csr to both)."""
+    lay = [("data", nb)]
+    cls = stream.Multiplexer if kind == "mux" else stream.Demultiplexer
+    Inst = L.MuxInst if kind == "mux" else L.DemuxInst
+    cname = "Multiplexer" if kind == "mux" else "Demultiplexer"
+    if via == "csr":
+        m = cls(lay, n, with_csr=True)
+        return Inst("%s(%d,with_csr)/%db" % (cname, n, nb), m, n, nb=nb, sel_sig=m._sel.storage)
+    if via == "crossbar":
+        x = stream.Crossbar(lay, n)
+        m = x.mux if kind == "mux" else x.demux
+        return Inst("Crossbar(%d).%s/%db" % (n, kind, nb), m, n, nb=nb)
+    return Inst("%s(%d)/%db" % (cname, n, nb), cls(lay, n), n, nb=nb)
+
+
+def mk_ident_conv(nb, stride=False, pw=0):
+    """The identity paths of the glue: Converter(n, n, report_valid_token_count=True) (constant count 1) and
+    StrideConverter between equal descriptions (params combinational)."""
+    if stride:
+        d = ED([("a", nb - nb // 2), ("b", nb // 2)], [("p", pw)] if pw else [])
+        m = stream.StrideConverter(d, d)
+        return DW(RG(StreamInst("StrideConverter(identity,%db+p%d)" % (nb, pw), m, "wire", capacity=0,
+                                tokens=toks(nb + pw))), nb + pw)
+    m = stream.Converter(nb, nb, report_valid_token_count=True)
+    return DW(RG(StreamInst("Converter(%d->%d,vtc)" % (nb, nb), m, "down 1 %d 0 0 1" % nb, tokens=toks(nb),
+                            spec=lambda: L.DownScoreboard(1, nb, 0, False, vtc=True))), nb)
 
 
 def mk_bufferized_up(r, nb, rev, tokens=None):
@@ -146,49 +238,76 @@ def mk_bufferized_up(r, nb, rev, tokens=None):
     m = cls(nb, nb * r, r, rev)
     return DW(RG(StreamInst("BufferizeEndpoints(_UpConverter(%d->%d))" % (nb, nb * r), m,
                             "bufferized_up %d %d %d" % (r, nb, b(rev)), tokens=tokens or toks(nb),
-                            spec=lambda: L.UpScoreboard(r, nb, 0, rev, vtc=True, max_words=3))), nb)
+                            spec=lambda: L.NoLoss(L.UpScoreboard(r, nb, 0, rev, vtc=True, max_words=3),
+                                                   lambda m: len(m.words) > 0, 8))), nb)
 
 
 def jobs(tier):
+    import time
     quick = tier == "quick"
     J = []
-    A = lambda mk, **kw: J.append(Job("A", mk, max_states=kw.pop("max_states", 20000 if quick else 30000), **kw))
-    B = lambda mk, **kw: J.append(Job("B", mk, cycles=3000 if quick else 20000, runs=1 if quick else 3, **kw))
+    t_end = time.time() + (240 if quick else 2400)     # safety net against endless exploration (not a verdict)
+    S = L.Safe
+    A = lambda mk, **kw: J.append(Job("A", S(mk, "job %d (mode A)" % len(J)), max_states=kw.pop("max_states", 20000 if quick else 30000),
+                                      deadline=t_end, **kw))
+    B = lambda mk, **kw: J.append(Job("B", S(mk, "job %d (mode B)" % len(J)), cycles=3000 if quick else 20000, runs=1 if quick else 3, **kw))
     T2 = [(0, 0, 1), (1, 1, 0)]   # two token values that toggle every field (keeps stale-memory blow-up small)
+    L64 = [("data", 64)]
+    LP = ED([("data", 1)], [("p", 1)])                       # payload + param
+    LW = ED([("a", 64), ("b", 56)], [("p", 8)])              # 128 bits in three signals
+    T2P = [(0, 0, 1), (3, 1, 0)]
 
-    # ---- first slice: pipes, buffers, FIFOs
-    A(lambda: StreamInst("PipeValid/1b", stream.PipeValid(L1), "pipevalid", capacity=1))
-    A(lambda: StreamInst("PipeReady/1b", stream.PipeReady(L1), "pipeready", capacity=1))
-    A(lambda: StreamInst("Buffer(v,r)/1b", stream.Buffer(L1, True, True), "buffer_vr", capacity=2))
-    A(lambda: StreamInst("Buffer(v)/1b", stream.Buffer(L1, True, False), "pipevalid", capacity=1))
-    A(lambda: StreamInst("Buffer(r)/1b", stream.Buffer(L1, False, True), "pipeready", capacity=1))
-    A(lambda: StreamInst("Buffer(-)/1b", stream.Buffer(L1, False, False), "wire", capacity=0))
-    A(lambda: StreamInst("SyncFIFO(0)/1b", stream.SyncFIFO(L1, 0), "wire", capacity=0))
-    A(lambda: StreamInst("SyncFIFO(1)/1b", stream.SyncFIFO(L1, 1), "pipevalid", capacity=1))
-    for d in (2, 3) if quick else (2, 3, 4, 5):
-        A(lambda d=d: StreamInst("SyncFIFO(%d)/1b" % d, stream.SyncFIFO(L1, d), "syncfifo %d" % d, capacity=d,
-                                 tokens=T2))
-        A(lambda d=d: StreamInst("SyncFIFO(%d,buffered)/1b" % d, stream.SyncFIFO(L1, d, buffered=True),
-                                 "syncfifo_buffered %d" % d, capacity=d + 1, tokens=T2))
+    # ---- first slice: pipes, buffers, FIFOs (depths 0,1,2,3,5 incl. odd; params; exported level)
+    A(lambda: ident("PipeValid/1b", stream.PipeValid(L1), "pipevalid", 1, 1))
+    A(lambda: ident("PipeReady/1b", stream.PipeReady(L1), "pipeready", 1, 1))
+    A(lambda: ident("Buffer(v,r)/1b", stream.Buffer(L1, True, True), "buffer_vr", 2, 1))
+    A(lambda: ident("Buffer(v)/1b", stream.Buffer(L1, True, False), "pipevalid", 1, 1))
+    A(lambda: ident("Buffer(r)/1b", stream.Buffer(L1, False, True), "pipeready", 1, 1))
+    A(lambda: ident("Buffer(-)/1b", stream.Buffer(L1, False, False), "wire", 0, 1))
+    A(lambda: fifo(0, False, L1, 1, "SyncFIFO(0)/1b"))
+    A(lambda: fifo(1, False, L1, 1, "SyncFIFO(1)/1b"))
+    A(lambda: fifo(1, True, L1, 1, "SyncFIFO(1,buffered)/1b"))
+    for d in (2, 3, 5) if quick else (2, 3, 4, 5, 6, 7):
+        A(lambda d=d: fifo(d, False, L1, 1, "SyncFIFO(%d)/1b" % d, tokens=T2))
+        if not (quick and d == 5):      # quick: odd depth 5 buffered is covered in mode B (8-bit)
+            A(lambda d=d: fifo(d, True, L1, 1, "SyncFIFO(%d,buffered)/1b" % d, tokens=T2))
+    A(lambda: fifo(3, False, LP, 2, "SyncFIFO(3)/1b+p1", tokens=T2P))
+    A(lambda: fifo(2, True, LP, 2, "SyncFIFO(2,buffered)/1b+p1", tokens=T2P))
     if not quick:
-        A(lambda: StreamInst("SyncFIFO(2)/1b/allflags", stream.SyncFIFO(L1, 2), "syncfifo 2", capacity=2))
+        A(lambda: fifo(2, False, L1, 1, "SyncFIFO(2)/1b/allflags"))
 
-    # ---- converters, ratios 2-4 ± reverse, 1-bit sub-words
+    # ---- converters, ratios 2-6 (3, 5, 6: not powers of two) ± reverse, 1-bit sub-words
     for r in (2, 3, 4):
         for rev in (False, True):
             A(lambda r=r, rev=rev: mk_up(r, 1, rev))
             A(lambda r=r, rev=rev: mk_down(r, 1, rev))
             A(lambda r=r, rev=rev: mk_pack(r, 1, 0, rev))
             A(lambda r=r, rev=rev: mk_unpack(r, 1, 0, rev))
+    for r, rev in ((5, False), (6, True)) + (() if quick else ((5, True), (6, False))):
+        A(lambda r=r, rev=rev: mk_up(r, 1, rev, conv_vtc=True))
+        A(lambda r=r, rev=rev: mk_down(r, 1, rev, conv_vtc=True, tokens=wide_tokens(r, 6) if r > 5 else None))
+        A(lambda r=r, rev=rev: mk_pack(r, 1, 0, not rev))
+        A(lambda r=r, rev=rev: mk_unpack(r, 1, 0, not rev, tokens=wide_tokens(r, 6) if r > 5 else None))
     for rev in (False, True):
         A(lambda rev=rev: mk_up(2, 1, rev, raw=False))
         A(lambda rev=rev: mk_down(2, 1, rev, raw=False))
+        A(lambda rev=rev: mk_up(3, 1, rev, conv_vtc=True))
+        A(lambda rev=rev: mk_down(3, 1, rev, conv_vtc=True))
         A(lambda rev=rev: mk_pack(2, 1, 1, rev))
         A(lambda rev=rev: mk_unpack(2, 1, 1, rev))
         A(lambda rev=rev: mk_stride(True, 2, [1, 1], 1, rev, tokens=None if not (quick and rev) else
                             [(d, f, l) for d in range(8) for (f, l) in ((0, 0), (1, 1))] + [(5, 1, 0), (2, 0, 1)]))
         A(lambda rev=rev: mk_stride(False, 2, [1, 1], 1, rev))
+    # multi-field payloads with params (Pack/Unpack chunk raw bits; StrideConverter field striding), ratio 3
+    T3 = [(d, f, l) for d in ((0, 7, 5, 2, 3) if quick else range(8)) for (f, l) in ((0, 0), (1, 1))] + \
+        [(5, 1, 0), (2, 0, 1)]
+    A(lambda: mk_pack(3, 2, 1, True, fields=[1, 1], tokens=T3), max_states=3000 if quick else 30000)
+    A(lambda: mk_unpack(3, 2, 1, False, fields=[1, 1], tokens=wide_tokens(7)))
+    A(lambda: mk_stride(True, 3, [1, 1], 1, False, tokens=T3), max_states=3000 if quick else 30000)
+    A(lambda: mk_stride(False, 3, [1, 1], 1, True, tokens=wide_tokens(7)))
     A(lambda: StreamInst("Converter(1->1)", stream.Converter(1, 1), "wire", capacity=0))
+    A(lambda: mk_ident_conv(2))
+    A(lambda: mk_ident_conv(2, stride=True, pw=1))
     if not quick:
         A(lambda: mk_up(4, 2, False))
         A(lambda: mk_stride(True, 3, [1, 2], 1, False))
@@ -201,12 +320,16 @@ def jobs(tier):
                 if quick and msb != ((i + o) % 2 == 0) and L.io_lcm(i, o) > 6:
                     continue      # quick: both bit orders only for the small registers
                 A(lambda i=i, o=o, msb=msb: mk_gearbox(i, o, msb, tokens=gb_tokens(i) if quick and i >= 3 else None),
-                  max_states=5000 if quick else 10000)
+                  max_states=3000 if quick else 10000)
 
-    # ---- routing
+    # ---- routing (selector range from n; direct, with_csr and through Crossbar)
     for n in (1, 2, 3):
         A(lambda n=n: L.MuxInst("Multiplexer(%d)" % n, stream.Multiplexer(L1, n), n, nb=1))
         A(lambda n=n: L.DemuxInst("Demultiplexer(%d)" % n, stream.Demultiplexer(L1, n), n, nb=1))
+    for kind in ("mux", "demux"):
+        # (_cls only makes the router classes visible in the lambda's names: props/c04.py keys on them)
+        A(lambda kind=kind: mk_route(kind, 3, 1, via="csr", _cls=(L.MuxInst, L.DemuxInst)))
+        A(lambda kind=kind: mk_route(kind, 3, 1, via="crossbar", _cls=(L.MuxInst, L.DemuxInst)))
     for srd in (False, True):
         A(lambda srd=srd: mk_gate(1, srd))
 
@@ -219,48 +342,83 @@ def jobs(tier):
         for rt in (False, True):
             A(lambda rf=rf, rt=rt: mk_cast([1, 2], [2, 1], rf, rt))
     A(lambda: mk_cast([1, 1, 1], [3], True, False))
+    A(lambda: mk_cast([2, 1, 1], [1, 1, 2], True, False))      # exactly one reversal, three-field destination
+    A(lambda: mk_cast([2, 1, 1], [1, 1, 2], False, True))
+    A(lambda: mk_cast([4], [1, 3], False, True, int_from=True))  # layout given as a bit count
+    A(lambda: mk_cast([1, 2, 1], [4], True, False, int_to=True))
     A(lambda: mk_shifter(2, tokens=[(0, 0, 0), (1, 0, 1), (2, 1, 0), (3, 1, 1)]))
+    A(lambda: mk_shifter(3, tokens=[(0, 0, 0), (5, 0, 1), (2, 1, 0), (7, 1, 1), (4, 0, 0)], ext=True),
+      max_states=3000 if quick else 30000)
     if not quick:
         A(lambda: mk_shifter(3, tokens=[(0, 0, 0), (5, 0, 1), (2, 1, 0), (7, 1, 1), (4, 0, 0)]))
     A(lambda: mk_bufferized_up(2, 1, False, tokens=T2))
 
-    # ---- mode B: realistic sizes
-    B(lambda: StreamInst("PipeValid/32b", stream.PipeValid(L32), "pipevalid", capacity=1))
-    B(lambda: StreamInst("Buffer(v,r)/8b", stream.Buffer(L8, True, True), "buffer_vr", capacity=2))
-    B(lambda: StreamInst("SyncFIFO(16)/8b", stream.SyncFIFO(L8, 16), "syncfifo 16", capacity=16))
-    B(lambda: StreamInst("SyncFIFO(64,buffered)/32b", stream.SyncFIFO(L32, 64, buffered=True),
-                         "syncfifo_buffered 64", capacity=65))
+    # ---- mode B: realistic sizes (8/32/64/128-bit, ratios 2-16 incl. 3/5/6, odd depths)
+    B(lambda: ident("PipeValid/32b", stream.PipeValid(L32), "pipevalid", 1, 32))
+    B(lambda: ident("PipeValid/64b", stream.PipeValid(L64), "pipevalid", 1, 64))
+    B(lambda: ident("PipeReady/128b+p", stream.PipeReady(LW), "pipeready", 1, 128))
+    B(lambda: ident("Buffer(v,r)/8b", stream.Buffer(L8, True, True), "buffer_vr", 2, 8))
+    B(lambda: ident("Buffer(v,r)/64b", stream.Buffer(L64, True, True), "buffer_vr", 2, 64))
+    B(lambda: fifo(16, False, L8, 8, "SyncFIFO(16)/8b"))
+    B(lambda: fifo(64, True, L32, 32, "SyncFIFO(64,buffered)/32b"))
+    B(lambda: fifo(7, False, L64, 64, "SyncFIFO(7)/64b"))
+    B(lambda: fifo(9, True, LW, 128, "SyncFIFO(9,buffered)/128b+p"))
+    B(lambda: fifo(5, True, L8, 8, "SyncFIFO(5,buffered)/8b"))
+    B(lambda: fifo(6, False, ED([("data", 8)], [("p", 4)]), 12, "SyncFIFO(6)/8b+p4"))
     B(lambda: mk_up(8, 8, False))
     B(lambda: mk_up(16, 8, True))
     B(lambda: mk_up(2, 32, False, raw=False))
+    B(lambda: mk_up(3, 64, False, conv_vtc=True))
+    B(lambda: mk_up(5, 8, True, conv_vtc=True))
+    B(lambda: mk_up(6, 16, True, raw=False))
     B(lambda: mk_down(8, 8, True))
     B(lambda: mk_down(16, 4, False))
     B(lambda: mk_down(2, 32, False, raw=False))
+    B(lambda: mk_down(3, 64, True, conv_vtc=True))
+    B(lambda: mk_down(5, 8, False, raw=False))
+    B(lambda: mk_down(6, 16, True, conv_vtc=True))
     B(lambda: mk_pack(8, 8, 4, False))
     B(lambda: mk_pack(4, 16, 0, True))
+    B(lambda: mk_pack(3, 64, 8, True, fields=[40, 24]))
+    B(lambda: mk_pack(5, 8, 3, False))
     B(lambda: mk_unpack(8, 8, 4, True))
     B(lambda: mk_unpack(2, 32, 0, False))
+    B(lambda: mk_unpack(3, 64, 8, False, fields=[40, 24]))
+    B(lambda: mk_unpack(6, 8, 3, True))
     B(lambda: mk_stride(True, 4, [8, 3, 5], 6, False))
     B(lambda: mk_stride(True, 8, [4, 4], 2, True))
+    B(lambda: mk_stride(True, 3, [5, 3], 4, True))
+    B(lambda: mk_stride(True, 5, [7, 9, 16], 3, False))
     B(lambda: mk_stride(False, 4, [8, 3, 5], 6, True))
     B(lambda: mk_stride(False, 2, [16, 16], 0, False))
+    B(lambda: mk_stride(False, 3, [64, 8], 5, False))
+    B(lambda: mk_stride(False, 6, [3, 2], 1, True))
     for (i, o, msb) in ((10, 8, True), (8, 10, False), (66, 64, True), (20, 32, True), (7, 9, False),
-                        (8, 16, True), (4, 16, False)) + \
-            (() if quick else ((10, 8, False), (8, 10, True), (64, 66, False), (32, 20, False), (9, 7, True))):
+                        (8, 16, True), (4, 16, False), (64, 66, False)) + \
+            (() if quick else ((10, 8, False), (8, 10, True), (32, 20, False), (9, 7, True), (40, 64, True))):
         B(lambda i=i, o=o, msb=msb: mk_gearbox(i, o, msb))
     B(lambda: L.MuxInst("Multiplexer(3)/8b", stream.Multiplexer(L8, 3), 3, nb=8))
     B(lambda: L.DemuxInst("Demultiplexer(3)/8b", stream.Demultiplexer(L8, 3), 3, nb=8))
     for n in (5, 9):      # 2^k + 1 ways: the top selector value needs the full documented selector width
         B(lambda n=n: L.MuxInst("Multiplexer(%d)/8b" % n, stream.Multiplexer(L8, n), n, nb=8))
         B(lambda n=n: L.DemuxInst("Demultiplexer(%d)/8b" % n, stream.Demultiplexer(L8, n), n, nb=8))
+    for kind in ("mux", "demux"):
+        B(lambda kind=kind: mk_route(kind, 6, 64, via="crossbar", _cls=(L.MuxInst, L.DemuxInst)))
+        B(lambda kind=kind: mk_route(kind, 5, 16, via="csr", _cls=(L.MuxInst, L.DemuxInst)))
     B(lambda: mk_gate(32, False))
     B(lambda: mk_gate(8, True))
+    B(lambda: mk_gate(64, True))
     B(lambda: mk_delay(32, 3))
+    B(lambda: mk_delay(64, 2))
     B(lambda: mk_cast([8, 16, 8], [4, 12, 16], True, False))
     B(lambda: mk_cast([5, 11], [11, 5], False, True))
+    B(lambda: mk_cast([64, 40, 24], [8, 56, 64], False, True))
+    B(lambda: mk_cast([33, 31, 64], [128], True, False, int_to=True))
     B(lambda: mk_shifter(8))
     B(lambda: mk_shifter(32))
+    B(lambda: mk_shifter(64, ext=True))
     B(lambda: mk_bufferized_up(4, 8, True))
+    B(lambda: mk_bufferized_up(3, 32, False))
     return J
 
 
